@@ -245,17 +245,18 @@ def mailboxClose (v : Variant) (r : RSys) (o : Nat) (side : String) (mood : Opti
 
 /-! ### AppNamespace -/
 
-/-- the part of `claim_nameplate` after the nameplate row is known (`n` = `self`, `app` = `self._app_id`) -/
+/-- the end of `claim_nameplate`: `db.commit(); self.open_mailbox(mailbox_id, side, when)`, the crowding check -/
+def claimCont (r1 : RSys) (n : Nat) (npid : Nat) (mb side : String) (t : Time) : RSys × ClaimRes :=
+  match (r1.onCore (·.commit)).openMailbox n mb side t with
+  | (r3, .integrity, _) => (r3, .integrity)
+  | (r3, .crowded, _) => (r3, .crowded)
+  | (r3, .ok, _) => if (r3.core.db.npSidesOf npid).length > 2 then (r3, .crowded) else (r3, .ok mb)
+
+/-- the part of `claim_nameplate` after the nameplate row is known (`n` = `self`) -/
 def claimTail (r : RSys) (n : Nat) (npid : Nat) (mb side : String) (t : Time) : RSys × ClaimRes :=
-  let cont (r1 : RSys) : RSys × ClaimRes :=
-    let r2 := r1.onCore (·.commit)
-    match r2.openMailbox n mb side t with
-    | (r3, .integrity, _) => (r3, .integrity)
-    | (r3, .crowded, _) => (r3, .crowded)
-    | (r3, .ok, _) => if (r3.core.db.npSidesOf npid).length > 2 then (r3, .crowded) else (r3, .ok mb)
   match r.core.db.findNpSide npid side with
-  | none => cont (r.onCore (·.modDb (·.insNpSide ⟨npid, true, side, t⟩)))
-  | some row => if row.claimed then cont r else (r, .reclaimed)
+  | none => (r.onCore (·.modDb (·.insNpSide ⟨npid, true, side, t⟩))).claimCont n npid mb side t
+  | some row => if row.claimed then r.claimCont n npid mb side t else (r, .reclaimed)
 
 /-- `claim_nameplate(name, side, when)` on the AppNamespace object `n` -/
 def claimNameplate (r : RSys) (n : Nat) (name side : String) (t : Time) (fresh : String) : RSys × ClaimRes :=
